@@ -1932,6 +1932,9 @@ func (m *Matcher) readerLoopZero(st state, rl *Loop, rfr *frame) bool {
 	var rkey interface{}
 	if rl.Bound != nil {
 		rkey = m.readerKeySt(st, rfr, rl.Bound, nil)
+	} else if rl.Range != nil {
+		// for i := range v with v := make(T, n): n iterations
+		rkey = m.readerKeySt(st, rfr, rl.Range, nil)
 	}
 	if rkey == nil {
 		return false
